@@ -110,7 +110,9 @@ Definition st_okb (s : store) : bool :=
    0 = AnyObject in queries *)
 Definition universe := N -> N * N.
 
-Inductive err := ENotFound | EChanged | EObjNotFound | EInvalidType | EEmptyRefFile | EPackedRefsBad.
+Inductive err := ENotFound | EChanged | EObjNotFound | EInvalidType | EEmptyRefFile | EPackedRefsBad
+  | ENotExist          (* DeleteLooseObject: no such loose object file (os.ErrNotExist) *)
+  | ENotSupported.     (* DeleteLooseObject on a storer without loose objects (memory) *)
 
 Inductive res :=
 | ROk
@@ -163,6 +165,10 @@ Definition st_cas (n : N) (v : refval) (on : N) (ov : refval) (s : store) : stor
     if rv_hash_eqb cur ov then (st_with_refs s (fm_set n v (s_refs s)), ROk)
     else (s, RErr EChanged)
   end.
+
+(* removal of an object id from the set of objects present (what deleting the
+   last copy of an object amounts to) *)
+Definition st_del_obj (k : N) (s : store) : store := st_with_objs s (fm_del k (s_objs s)).
 
 (* one API call on a plain store *)
 Definition st_step (U : universe) (s : store) (o : op) : store * res :=
@@ -252,6 +258,8 @@ Definition s_err (e : err) : string :=
    | EInvalidType => "eIT"
    | EEmptyRefFile => "eEF"
    | EPackedRefsBad => "ePB"
+   | ENotExist => "eNE"
+   | ENotSupported => "eNS"
    end)%string.
 
 Definition o_res (r : res) : out :=
